@@ -54,7 +54,11 @@ def gen_cases(ctx):
             if rng.random() < 0.15:
                 u = rand_field(rng, D, shape, 0, 1)       # zero field
             v = rand_field(rng, D, shape, 1.0, 4)
-            cases.append({"kind": kind, "D": D, "ac": ac if rng.random() < 0.9 else None, "dtype": dt, "u": [u], "v": [v]})
+            us, vs = [u], [v]
+            for _ in range(rng.choice([0, 0, 1, 2])):      # batches: every item is the model of that item
+                us.append(rand_field(rng, D, shape, rng.choice([0.25, 0.75, 2.0]), 4))
+                vs.append(rand_field(rng, D, shape, 1.0, 4))
+            cases.append({"kind": kind, "D": D, "ac": ac if rng.random() < 0.9 else None, "dtype": dt, "u": us, "v": vs})
         else:
             shape = tuple(rng.randint(3, 4) for _ in range(D))
             mode = rng.choice(["forward_central_backward", "central", "sobel", "forward"])
@@ -83,10 +87,15 @@ def correspondence(ctx):
         if c["kind"] == "compose":
             ac = True if c["ac"] is None else c["ac"]
             tol = "tol32" if c["dtype"] == "float32" else "tol64"
-            lines.append(f"Definition c{i} : bool := fclose{D} {tol} (qcompose{D} {b(ac)} {qc_nested(c['u'][0])} {qc_nested(c['v'][0])}) "
-                         f"{qc_nested(r['val'][0])}.")
+            if len(r["val"]) != len(c["u"]):
+                failures.append({"case": {k: v for k, v in c.items() if k not in ("u", "v")}, "why": "batch size of the result differs"})
+                continue
+            terms = [f"fclose{D} {tol} (qcompose{D} {b(ac)} {qc_nested(c['u'][it])} {qc_nested(c['v'][it])}) {qc_nested(r['val'][it])}"
+                     for it in range(len(c["u"]))]
+            lines.append(f"Definition c{i} : bool := " + " && ".join(terms) + ".")
             names.append((i, f"c{i}"))
-            evals += 1
+            evals += len(terms)
+            dist[f"compose:batch={len(terms)}"] = dist.get(f"compose:batch={len(terms)}", 0) + 1
         elif c["kind"] == "lie":
             # every sample point: generated formula on the implementation's own Jacobians vs lie_bracket's value
             v = [flat(ch) for ch in c["v"][0]]
@@ -130,7 +139,7 @@ def correspondence(ctx):
     samples = [{"case": cases[i], "impl": {k: v for k, v in res[i].items() if k in ("val", "error")}} for i in range(min(2, len(cases)))]
     return {"evaluations": evals, "distinct_nontrivial": len({str(c) for c in cases if any(x != 0 for x in _flat(c["v"]))}),
             "rule": "compose_flows on dyadic fields (affine invariant, arbitrary up to amplitude 2 = far outside the domain, zero) against the "
-                    "executable model, both flags + default, float32/float64; lie_bracket values against the generated formula applied to the "
+                    "executable model, both flags + default, float32/float64, batches of 1-3; lie_bracket values against the generated formula applied to the "
                     "implementation's own jacobian_dict at sample points; compose_svfs for bch_terms 0..5 against the generated coefficient "
                     "table applied to the implementation's own nested brackets; non-trivial = second operand not all-zero",
             "samples": samples, "failures": failures, "distribution": dist,
@@ -204,7 +213,6 @@ MANIFEST_ENTRY = {
             "lie_bracket (on the implementation's Jacobians) and compose_svfs (on the implementation's nested brackets).",
     "note": "Partial: 'BCH error does not grow with the truncation order' and 'logv(expv(v)) = v within a bound, independent of "
             "align_corners' are quantitative statements about discretised smooth fields -- explored numerically on the implementation "
-            "only. Refuted on the unchanged tree (reported, known findings): logv calls compose_flows without align_corners (theorem "
-            "C13_logv_compose_flags_refuted + numeric witness); compose_flows / logv raise for batches N > 1 (in-place add into a (1,...) "
-            "tensor). Trusted: Coq kernel, vm_compute, F.grid_sample model, symtorch, linearity of flow_derivatives (evaluated).",
+            "only. logv forwards align_corners to all its steps (C13_logv_forwards_align_corners, generated flags) and compose_flows / logv "
+            "accept batches (repaired in /repo d753466, 0bf9275; checked on 2-item traces, batch correspondence and search). Trusted: Coq kernel, vm_compute, F.grid_sample model, symtorch, linearity of flow_derivatives (evaluated).",
 }
